@@ -9,13 +9,34 @@ the 20-byte tag entries, and reduces what it finds to small events for the obser
   Eof{n,stop,mj_exists,mj_ok}                         stop in zero | outside | cycle | toomany | nofile
 
 Tag order and the padded strip length are reported nowhere: the property does not speak about them.
+
+Files of a GiB and more (TLC's integers are 32 bit): every position and length is reported in units of 8 bytes, the
+alignment of all sections (Acq.unit = 8; a region [off, off+len) becomes [off // 8, ceil((off+len) / 8))); the file is
+memory-mapped, and frames marked `z` (all-zero pixels, written sparsely by the harness) are compared in chunks.
 """
-import json, os, struct, sys
+import json, mmap, os, struct, sys
 
 TYPESZ = {1: 1, 2: 1, 3: 2, 4: 4, 5: 8, 6: 1, 7: 1, 8: 2, 9: 4, 10: 8, 11: 4, 12: 8, 16: 8, 17: 8, 18: 8}
 BPP = {"u8": 1, "i8": 1, "u16": 2, "i16": 2, "f32": 4, "u10": 2, "u12": 2, "u14": 2}
 FMT = {"u8": 1, "u16": 1, "u10": 1, "u12": 1, "u14": 1, "i8": 2, "i16": 2, "f32": 3}
 M64 = (1 << 64) - 1
+
+
+ZCHUNK = bytes(1 << 24)
+
+
+def strip_ok(b, so, case_id, acq, fr):
+    """does the file hold the frame's pixel bytes at so?"""
+    n = fr["w"] * fr["h"] * BPP[fr["ty"]]
+    if so + n > len(b):
+        return False
+    if fr.get("z"):
+        for o in range(0, n, len(ZCHUNK)):
+            k = min(len(ZCHUNK), n - o)
+            if b[so + o:so + o + k] != ZCHUNK[:k]:
+                return False
+        return True
+    return b[so:so + n] == pixels(case_id, acq, fr)
 
 
 def pixels(case_id, acq, fr):
@@ -64,11 +85,16 @@ def uint_tag(d, t):
 
 
 def events(path, acq, meta_json_path=None):
-    """acq: {x, a, kind, meta (str|None), frames:[{w,h,ty,id,hw,trt,thw}]} -> list of event dicts."""
+    """acq: {x, a, kind, meta (str|None), frames:[{w,h,ty,id,hw,trt,thw[,z]}]} -> list of event dicts."""
     fr = acq["frames"]
+    size = os.path.getsize(path) if os.path.isfile(path) else 0
+    U = 8 if size >= 2 ** 30 else 1            # unit of all reported positions and lengths
+    P = lambda off: min(off // U, 2 ** 30)      # position
+    L = lambda off, ln: min(-(-(off + ln) // U) - off // U, 2 ** 30)   # length of [off, off+ln) in units
     evs = [{"e": "Acq", "x": acq["x"], "a": acq["a"], "kind": acq["kind"], "n": len(fr), "meta": acq.get("meta") is not None,
+            "unit": U,
             "frames": [{"w": f["w"], "h": f["h"], "bits": 8 * BPP[f["ty"]], "fmt": FMT[f["ty"]],
-                        "npx": f["w"] * f["h"] * BPP[f["ty"]]} for f in fr]}]
+                        "npx": -(-(f["w"] * f["h"] * BPP[f["ty"]]) // U)} for f in fr]}]
     mj_exists = mj_ok = False
     if meta_json_path is not None and os.path.exists(meta_json_path):
         mj_exists = True
@@ -80,13 +106,14 @@ def events(path, acq, meta_json_path=None):
         evs.append({"e": "Hdr", "exists": False, "size": 0, "ok": False, "first": 0})
         evs.append({"e": "Eof", "n": 0, "stop": "nofile", "mj_exists": mj_exists, "mj_ok": mj_ok})
         return evs
-    b = open(path, "rb").read()
+    fh = open(path, "rb")
+    b = mmap.mmap(fh.fileno(), 0, access=mmap.ACCESS_READ) if size else b""
     n = len(b)
     hdr_ok, first = False, 0
     if n >= 16:
         fmt, ver, so, z, first = struct.unpack_from("<HHHHQ", b, 0)
         hdr_ok = (fmt, ver, so, z) == (0x4949, 43, 8, 0)
-    evs.append({"e": "Hdr", "exists": True, "size": n, "ok": hdr_ok, "first": first if hdr_ok else 0})
+    evs.append({"e": "Hdr", "exists": True, "size": min(-(-n // U), 2 ** 30), "ok": hdr_ok, "first": P(first) if hdr_ok else 0})
     off, seen, i, stop = (first if hdr_ok else 0), set(), 0, "zero"
     if not hdr_ok:
         stop = "outside"
@@ -105,17 +132,17 @@ def events(path, acq, meta_json_path=None):
         w, h, bits, sf = uint_tag(d, 256), uint_tag(d, 257), uint_tag(d, 258), uint_tag(d, 339)
         so, sl = uint_tag(d, 273), uint_tag(d, 279)
         tags_ok = d["ok"] and None not in (w, h, bits, sf, so, sl) and 270 in d["tags"]
-        ev = {"e": "Ifd", "i": i, "off": d["off"], "len": d["len"], "next": min(d["next"], 2**30), "tags_ok": bool(tags_ok),
+        ev = {"e": "Ifd", "i": i, "off": P(d["off"]), "len": L(d["off"], d["len"]), "next": P(d["next"]), "tags_ok": bool(tags_ok),
               "w": min(w or 0, 2**30), "h": min(h or 0, 2**30), "bits": bits or 0, "fmt": sf or 0,
-              "so": min(so or 0, 2**30), "sl": min(sl or 0, 2**30), "bytes_ok": False, "doff": 0, "dlen": 0, "json_ok": False,
+              "so": P(so or 0), "sl": L(so or 0, sl or 0), "bytes_ok": False, "doff": 0, "dlen": 0, "json_ok": False,
               "ids_ok": False, "has_meta": False, "meta_ok": False}
         exp = fr[i] if i < len(fr) else None
         if exp is not None and so is not None and sl is not None:
-            px = pixels(acq["x"], acq["a"], exp)
-            ev["bytes_ok"] = sl >= len(px) and so + len(px) <= n and b[so:so + len(px)] == px
+            ev["bytes_ok"] = sl >= exp["w"] * exp["h"] * BPP[exp["ty"]] and strip_ok(b, so, acq["x"], acq["a"], exp)
         de = d["tags"].get(270)
         if de is not None and de[0] == 2:
-            ev["doff"], ev["dlen"] = min(de[3][0], 2**30), min(de[3][1], 2**30)
+            # (a value of at most 8 bytes is stored inside the directory entry: TiffObs asks for dlen > 8 // unit)
+            ev["doff"], ev["dlen"] = P(de[3][0]), (L(de[3][0], de[3][1]) if de[3][1] > 8 else 0)
             if de[2] is not None:
                 try:
                     j = json.loads(de[2].split(b"\0")[0].decode("utf8"))
@@ -132,6 +159,9 @@ def events(path, acq, meta_json_path=None):
         i += 1
         off = d["next"]
     evs.append({"e": "Eof", "n": i, "stop": stop, "mj_exists": mj_exists, "mj_ok": mj_ok})
+    if size:
+        b.close()
+    fh.close()
     return evs
 
 
